@@ -28,6 +28,22 @@ Line driver for the `DebuggingRecorder` model (component `debug`).
                                                   snapshot = entries `<kind>/<class>/<c<n>|g<int>|h<ints joined by _>>`
                                                   joined by `;` (`empty` if none), a thread's snapshots joined by `+`
 
+  debug hconc <B> <prefill> <recs> <snaps> <sched>  ONE histogram of a recorder, record() / record_many() racing snapshot()
+                                                  at the granularity of the lock-free bucket (`Model/DebuggingHist`):
+                                                  prefill = the values recorded before the scheduled threads start, recs =
+                                                  per recording thread its values (`,` between threads, `.` = no thread);
+                                                  values joined by `+`, `v*n` = `record_many(v, n)`, `-` = none;
+                                                  snaps = per snapshotting thread its number of snapshots;
+                                                  sched = grants joined by `.`: `<t>` = thread t granted at a bucket yield
+                                                  point (one model step), `<t>n` = granted elsewhere (no model step).
+                                                  → point labels | k1=<K1 steps> | k1vals=<values of the K1 claims> |
+                                                    snaps=<per snapshotting thread its snapshots joined by `+`, values of
+                                                    one snapshot in the order shown joined by `_`, `e` = empty, `.` = no
+                                                    snapshot> | pending=<what a snapshot after the run shows>
+                                                  recording thread t is model thread t, the prefill is model thread
+                                                  `recs.length` (it runs alone first), snapshotting thread j is model
+                                                  thread `recs.length + 1 + j`; harness ids in `sched` skip the prefill.
+
 The global recorder has id `globalId` = 1000; it survives `debug new` (a process has one global recorder).
 `tid` (the thread issuing the call) must be a number; the direct calls of the model do not depend on it.
 Entry: `<c|g|h>/<name>/<labels as shown>/<unit|~>/<desc|~>/<value>`; histogram values in the order shown (newest block first, each block in record order).
@@ -38,6 +54,7 @@ import MetricsVerif.Driver.Prom
 import MetricsVerif.Model.Debugging
 import MetricsVerif.Driver.Registry
 import MetricsVerif.Model.DebuggingConc
+import MetricsVerif.Model.DebuggingHist
 
 namespace MetricsVerif.Driver.Debugging
 open MetricsVerif.Driver MetricsVerif.Prom MetricsVerif.PromFmt MetricsVerif.Debugging MetricsVerif
@@ -189,9 +206,74 @@ def runTok (count progs sched : String) : Option String := do
 
 end Conc
 
+/-! ### `debug hconc`: one histogram on the bucket step machine -/
+
+namespace Hist
+open MetricsVerif.Bucket MetricsVerif.DebuggingHist
+
+/-- `v` or `v*n` (`record_many(v, n)`) -/
+def valTok (s : String) : Option (List Nat) :=
+  match s.splitOn "*" with
+  | [v] => v.toNat?.map (fun v => [v])
+  | [v, n] => do pure (recordMany (← v.toNat?) (← n.toNat?))
+  | _ => none
+
+def valsTok (s : String) : Option (List Nat) :=
+  if s == "-" then some [] else ((s.splitOn "+").mapM valTok).map List.flatten
+
+inductive Tok
+  | step (t : Nat)
+  | noop (t : Nat)
+
+def tokOf (s : String) : Option Tok :=
+  match s.toList.reverse with
+  | 'n' :: r => (String.ofList r.reverse).toNat?.map Tok.noop
+  | _ => s.toNat?.map Tok.step
+
+def schedTok (s : String) : Option (List Tok) :=
+  if s == "-" then some [] else (s.splitOn ".").mapM tokOf
+
+structure Replay where
+  s : Bucket.Sys
+  fine : List Nat := []
+  labels : List String := []
+
+def replayTok (nrec : Nat) (r : Replay) : Tok → Replay
+  | .step t =>
+    let m := if t < nrec then t else t + 1
+    let lbl := match r.s.threads[m]? with | some th => th.pc.label | none => "nothread"
+    { r with s := Bucket.step r.s m, fine := r.fine ++ [m], labels := r.labels ++ [lbl] }
+  | .noop _ => r
+
+def showVals (vs : List Nat) : String := if vs.isEmpty then "e" else "_".intercalate (vs.map toString)
+
+def showThreadSnaps (t : Bucket.Thread) : String :=
+  let sn := snapsOfThread t
+  if sn.isEmpty then "." else "+".intercalate (sn.map showVals)
+
+def runTok (b prefill recs snaps sched : String) : Option String := do
+  let b ← b.toNat?
+  if b = 0 then none else
+  let pre ← valsTok prefill
+  let recs ← listTok valsTok recs
+  let snaps ← listTok String.toNat? snaps
+  let toks ← schedTok sched
+  let progs := progsOf (recs ++ [pre]) snaps
+  let preSched := prefillSched recs.length pre.length
+  let s0 := Bucket.run (Bucket.init b progs) preSched
+  let r := toks.foldl (replayTok recs.length) { s := s0 }
+  let all := preSched ++ r.fine
+  let k1 := k1Fold (Bucket.init b progs) own0 0 all
+  let kv := k1ValsAcc (Bucket.init b progs) own0 [] all
+  let per := showList showThreadSnaps (r.s.threads.drop (recs.length + 1))
+  pure s!"{".".intercalate r.labels} | k1={k1} | k1vals={showVals kv} | snaps={per} | pending={showVals (pending r.s)}"
+
+end Hist
+
 def handle (st : Option DSt) (args : List String) : Option (Option DSt × String) :=
   match args with
   | ["conc", count, progs, sched] => do pure (st, ← Conc.runTok count progs sched)
+  | ["hconc", b, prefill, recs, snaps, sched] => do pure (st, ← Hist.runTok b prefill recs snaps sched)
   | ["new", n] => do
     let n ← n.toNat?
     if n = 0 ∨ n > globalId then none else
